@@ -919,7 +919,7 @@ func runC03(c *Ctx) error {
 	thorough := c.Tier == "thorough"
 	npairs := 2
 	if thorough {
-		npairs = 10
+		npairs = 16
 	} else if c.Tier == "search" {
 		npairs = 3
 	}
